@@ -389,6 +389,7 @@ func genC13Table(r *rand.Rand, idx int, t tmsInfo, ids []int, kind string, n int
 	g := colSpec{Name: spec.GCol, Type: spec.GType}
 	cols = append(cols[:gpos:gpos], append([]colSpec{g}, cols[gpos:]...)...)
 	spec.Cols = cols
+	spec.Defaults = genDefaults(spec)
 	tab := c13Table{Spec: spec}
 	key := int64(r.Intn(10))
 	for i := 0; i < n; i++ {
@@ -1546,6 +1547,7 @@ func runC13(c *hc.Ctx) error {
 		for _, t := range k.Tables {
 			c.Count("source records extent: " + t.Spec.SrcExtentMode)
 			c.Count(fmt.Sprintf("source table z=%d m=%d", t.Spec.Z, t.Spec.M))
+			c.Count(defaultsClass(t.Spec))
 			for _, f := range t.Feats {
 				degenerate = degenerate || strings.Contains(f.Shape, "degenerate")
 			}
